@@ -1,7 +1,115 @@
 package main
 
-import "fmt"
+import (
+	"fmt"
+	"os"
+	"os/exec"
+	"path/filepath"
+	"strings"
+)
 
+// regenerate runs the current tree's `templ generate` on the property's template sources and
+// maps the generated files into virtual package directories under /repo.
 func (ld *loader) regenerate() error {
-	return fmt.Errorf("not implemented")
+	for _, g := range ld.spec.Gen {
+		base := filepath.Base(g.Dir)
+		work := filepath.Join(ld.scratch, "gen", base)
+		if err := os.MkdirAll(work, 0o755); err != nil {
+			return err
+		}
+		pkgName := ""
+		for _, t := range g.Templates {
+			b, err := os.ReadFile(filepath.Join(ld.hdir, t))
+			if err != nil {
+				return err
+			}
+			if m := pkgClause.FindSubmatch(b); m != nil && pkgName == "" {
+				pkgName = string(m[1])
+			}
+			if err := os.WriteFile(filepath.Join(work, filepath.Base(t)), b, 0o644); err != nil {
+				return err
+			}
+		}
+		cmd := exec.Command("go", "run", "./cmd/templ", "generate", "-path", work)
+		cmd.Dir = repoDir
+		cmd.Env = append(goEnv, "TEMPL_DEV_MODE=")
+		out, err := cmd.CombinedOutput()
+		if err != nil {
+			tail := string(out)
+			if len(tail) > 2000 {
+				tail = tail[len(tail)-2000:]
+			}
+			return fmt.Errorf("templ generate failed on %s: %v\n%s", g.Dir, err, tail)
+		}
+		ents, _ := os.ReadDir(work)
+		n := 0
+		for _, e := range ents {
+			if strings.HasSuffix(e.Name(), "_templ.go") {
+				ld.overlay[filepath.Join(repoDir, g.Dir, e.Name())] = filepath.Join(work, e.Name())
+				n++
+			}
+		}
+		if n != len(g.Templates) {
+			return fmt.Errorf("templ generate produced %d files for %d templates in %s:\n%s", n, len(g.Templates), g.Dir, out)
+		}
+		for _, x := range g.Extra {
+			b, err := os.ReadFile(filepath.Join(ld.hdir, x))
+			if err != nil {
+				return err
+			}
+			real := filepath.Join(work, filepath.Base(x))
+			os.WriteFile(real, []byte(strings.Replace(string(b), "package PKGNAME", "package "+pkgName, 1)), 0o644)
+			ld.overlay[filepath.Join(repoDir, g.Dir, filepath.Base(x))] = real
+		}
+		ld.pkgName[modPath+"/"+g.Dir] = pkgName
+		ld.genWork = append(ld.genWork, work)
+	}
+	return nil
+}
+
+// regenerateRepoTests re-runs the generator on every generator/test-*/ *.templ of the repository
+// and overlays the result over the checked-in *_templ.go, so that loading those packages
+// type-checks what the current generator emits ("generated Go code compiles").
+func (ld *loader) regenerateRepoTests() error {
+	dirs, _ := filepath.Glob(filepath.Join(repoDir, "generator", "test-*"))
+	root := filepath.Join(ld.scratch, "gen", "repo-tests")
+	type job struct {
+		dir, work string
+		tmpls     []string
+	}
+	var jobs []job
+	for _, d := range dirs {
+		tmpls, _ := filepath.Glob(filepath.Join(d, "*.templ"))
+		if len(tmpls) == 0 {
+			continue
+		}
+		work := filepath.Join(root, filepath.Base(d))
+		os.MkdirAll(work, 0o755)
+		for _, t := range tmpls {
+			b, err := os.ReadFile(t)
+			if err != nil {
+				return err
+			}
+			os.WriteFile(filepath.Join(work, filepath.Base(t)), b, 0o644)
+		}
+		jobs = append(jobs, job{d, work, tmpls})
+	}
+	cmd := exec.Command("go", "run", "./cmd/templ", "generate", "-path", root)
+	cmd.Dir = repoDir
+	cmd.Env = append(goEnv, "TEMPL_DEV_MODE=")
+	if out, err := cmd.CombinedOutput(); err != nil {
+		return fmt.Errorf("templ generate failed on the repository's generator tests: %v\n%s", err, out)
+	}
+	for _, j := range jobs {
+		for _, t := range j.tmpls {
+			gen := strings.TrimSuffix(filepath.Base(t), ".templ") + "_templ.go"
+			if _, err := os.Stat(filepath.Join(j.work, gen)); err != nil {
+				return fmt.Errorf("no generated file for %s", t)
+			}
+			ld.overlay[filepath.Join(j.dir, gen)] = filepath.Join(j.work, gen)
+		}
+		ld.extraPatterns = append(ld.extraPatterns, modPath+"/generator/"+filepath.Base(j.dir))
+		ld.programs++
+	}
+	return nil
 }
